@@ -89,7 +89,7 @@ SAN = "asan" in os.environ.get("LD_PRELOAD", "")
 WORKERS = 8
 BATCH = 24
 CASE_LIMIT_S = 60 if SAN else 15        # per-case watchdog inside the child
-SIZED_LIMIT_S = 240 if SAN else 60      # ... for the size-ladder / history cases
+SIZED_LIMIT_S = 240 if SAN else 40      # ... for the size-ladder / history cases
 SAN_WORDS = ("AddressSanitizer", "runtime error:", "UndefinedBehaviorSanitizer", "LeakSanitizer")
 
 ENTRIES = {}        # entry name -> (driver, generator)
@@ -625,7 +625,7 @@ def parent_main(args, only=None):
             if r.get("timeout"):
                 rep.case(None, nontrivial=False)
                 rep.skip("timeout (>%ds, hang; not a memory violation) in %s at %s" % (
-                    CASE_LIMIT_S, r["name"], r.get("step")))
+                    SIZED_LIMIT_S if kind else CASE_LIMIT_S, r["name"], r.get("step")))
                 continue
             if "died" in r and kind:
                 rep.case(None, nontrivial=False)
